@@ -168,7 +168,13 @@ func (s *Session) step(tk []string, q QueryFn) (out string, mut bool) {
 		}
 		return DumpTrie(&s.T), false
 	}
-	if s.cyc != "" && !s.Dirty && !(len(tk) == 3 && tk[0] == "sibling") {
+	if len(tk) == 1 && tk[0] == "dumpc" {
+		if !DumpAvailable() {
+			return "dump-unavailable", false
+		}
+		return DumpCompact(&s.T), false
+	}
+	if s.cyc != "" && !s.Dirty && !(len(tk) == 3 && tk[0] == "sibling") && !(len(tk) == 1 && tk[0] == "dumpc") {
 		// a query reaching that node would never return (and exhaust the memory)
 		return CycleWord + s.cyc, false
 	}
